@@ -187,10 +187,8 @@ def compileBlocks (cons : List Con) (dummy : Nat) : M (List CRow × List Cone) :
   let e2 ← atoms.mapM fun a => do let (r, k) ← epiRows a dummy; pure (r, [k])
   let e3 ← setm.mapM (conRows dummy)
   let all := e1 ++ e2 ++ e3
-  if (all.flatMap (·.1)).isEmpty then
-    -- `np.max(A_rows)` of an empty triplet list
-    throw "ValueError: zero-size array to reduction operation maximum"
-  else pure (all.flatMap (·.1), all.flatMap (·.2))
+  -- (a constraint list that produces no row at all compiles to the empty system)
+  pure (all.flatMap (·.1), all.flatMap (·.2))
 
 /-! ### assembly: sorted distinct column ids, dense A, b -/
 
@@ -198,8 +196,10 @@ def insertNat (a : Nat) : List Nat → List Nat
   | [] => [a]
   | b :: bs => if a < b then a :: b :: bs else if a = b then b :: bs else b :: insertNat a bs
 
+/-- the columns of the assembled matrix: the ids of the entries with a NONZERO value (entries with value zero are the
+    placeholders with which constant rows are padded, at an arbitrary column; they do not create columns) -/
 def sortedCols (rows : List CRow) : List Nat :=
-  (rows.flatMap fun r => r.entries.map (·.1)).foldl (fun acc c => insertNat c acc) []
+  (rows.flatMap fun r => (r.entries.filter fun e => e.2 != 0).map (·.1)).foldl (fun acc c => insertNat c acc) []
 
 /-- duplicates in the triplet list are summed (scipy) -/
 def denseRow (cols : List Nat) (r : CRow) : List Rat :=
